@@ -129,6 +129,8 @@ def run(ck):
     c15.remainder_exemption(ck, prog)
     c15.agreement(ck, prog)
     cols_rule(ck, prog)
+    from . import width
+    width.run(ck, prog)   # a proof of an ordinary legal configuration survives serialization: no length prefix truncates
     c15.layer_count_rule(ck, prog)
     # transcript agreement: both sides are checked against the one documented event order (rules E1.*/E3.* of C04)
     c04.run(ck)
